@@ -7,7 +7,7 @@ static struct Node *mknode(void) {
   n->m_children.keys = malloc(g_rcap * sizeof(size_t)); n->m_children.kids = malloc(g_rcap * sizeof(struct Node));
   n->m_children.psum = malloc(g_rcap * sizeof(size_t)); n->m_children.pmax = malloc(g_rcap * sizeof(size_t)); n->m_children.pany = malloc(g_rcap * sizeof(_Bool));
   __CPROVER_assume(n->m_children.keys != 0 && n->m_children.kids != 0 && n->m_children.psum != 0 && n->m_children.pmax != 0 && n->m_children.pany != 0);
-  g_scr = malloc(sizeof(struct Node)); __CPROVER_assume(g_scr != 0);
+  g_scr = malloc(sizeof(struct Node)); g_trk = malloc(sizeof(struct Node)); __CPROVER_assume(g_scr != 0 && g_trk != 0);
   if (nondet_bool()) n->m_subject.p = 0;
   else { n->m_subject.p = malloc(sizeof(struct Subj0)); __CPROVER_assume(n->m_subject.p != 0); }
   return n;
